@@ -241,6 +241,20 @@ def run(sim, params):
                 want = sorted(r[0] for r in raw.execute("SELECT id FROM step WHERE workflow=?", (w,)))
                 if got != want:
                     raise Violation("wrong_relation_read", f"get_workflow_steps({w}) -> {got} expected {want}", signature="wrong_relation_read:workflow_steps")
+                if seq:
+                    # rows handed out by the list getters must be as independent of later reads as those of the single getters
+                    for table, lister in (("step", db.get_workflow_steps), ("port", db.get_workflow_ports)):
+                        rows = [r for r in await lister(w) if isinstance(r, dict)]
+                        for r in rows:
+                            rid = r["id"]
+                            mutate(r)
+                            sim.probe("listed_row_mutated")
+                            again = await getters[table](rid)
+                            a = copy.deepcopy(norm(again)) if again is not None else None
+                            want_row = ref_row(raw, table, rid)
+                            if canon(a) != canon(want_row):
+                                raise Violation("caller_mutation_leaks", f"after mutating a row returned by get_workflow_{table}s({w}) get_{table}({rid}) returned {canon(a)[:400]} "
+                                                f"instead of {canon(want_row)[:300]}", signature=f"caller_mutation_leaks:{table}:via_workflow_listing")
 
         async def client(c):
             for _ in range(nops // nclients):
